@@ -87,10 +87,11 @@ def split_by_steps(traces, k):
 
 def validate(module, traces, label, parallel=4, timeout=2400):
     """Run the (total) trace spec over the traces in up to `parallel` TLC processes.
-    Returns ({id: (verdict, pos)}, {id: (first model mismatch, pos, exercised deviations)}, [TLCResult])."""
-    verdicts, models, results = {}, {}, []
+    Returns ({id: (verdict, pos)}, {id: (first model mismatch, pos, exercised mask)},
+    {id: [(clause, step, model in sync, exercised mask)]}, [TLCResult])."""
+    verdicts, models, props, results = {}, {}, {}, []
     if not traces:
-        return verdicts, models, results
+        return verdicts, models, props, results
     steps = sum(len(t["steps"]) for t in traces)
     parallel = max(1, min(parallel, steps // 2500 + 1))
     chunks = split_by_steps(traces, parallel)
@@ -114,27 +115,37 @@ def validate(module, traces, label, parallel=4, timeout=2400):
                 verdicts[v[1]] = (v[2], v[3])
             elif isinstance(v, tuple) and len(v) >= 4 and v[0] == "M":
                 models[v[1]] = (v[2], v[3], v[4] if len(v) > 4 else 0)      # v[4]: bit mask over trace["dev"]
+            elif isinstance(v, tuple) and len(v) == 6 and v[0] == "P":
+                props.setdefault(v[1], []).append((v[2], v[3], bool(v[4]), v[5]))
         miss = [t["id"] for t in part if t["id"] not in verdicts or t["id"] not in models]
         if miss:
             raise tlc.TLCFailure(f"{label}: no verdict/model line for {len(miss)} traces (first {miss[:3]})")
-    return verdicts, models, results
+        lost = [t["id"] for t in part if verdicts[t["id"]][0] == "PROP" and not props.get(t["id"])]
+        if lost:
+            raise tlc.TLCFailure(f"{label}: PROP verdict without clause lines for traces {lost[:3]}")
+    return verdicts, models, props, results
 
 
-def judge(chk, fam, module, traces, meta, all_devs, label, parallel):
-    """code -> spec: validate recorded real executions and classify contract failures (R4).
-
-    Every trace is validated with the implementation model running the deviations of the OPEN known
-    findings (the as-code model).  PROP:<clause> = a clause of the statement is false on the observed
-    real execution.  Such a trace is a known finding only if the as-code model reproduced the execution
-    step by step up to and including the violating step; it is then reported under the deviations the
-    execution actually exercised (steps whose outcome changes when that deviation alone is switched
-    off).  If the model lost the execution before the violation (the code does something the pinned
-    code does not do), or no deviation was exercised, the key names the clause and the first mismatch:
-    that is a new VIOLATION."""
+def as_code_for(traces, all_devs):
     as_code = open_devs(all_devs)
     for t in traces:
         t["dev"] = as_code
-    verdicts, models, results = validate(module, traces, label, parallel)
+    return as_code
+
+
+def judge(chk, fam, module, traces, meta, all_devs, label, parallel, pre=None):
+    """code -> spec: validate recorded real executions and classify contract failures (R4).
+
+    Every trace is validated with the implementation model running the deviations of the OPEN known
+    findings (the as-code model).  Every clause of the statement that is false somewhere on the observed
+    real execution is reported once (clause, step).  It is a known finding only if the as-code model
+    reproduced the execution step by step up to and including that step; it is then reported under the
+    deviations the execution had exercised by then (steps whose observable outcome changes when that
+    deviation alone is switched off; all open deviations if no single step is attributable).  If the
+    model had lost the execution before (the code does something the pinned code does not do), or there
+    is no open deviation, the key names the clause and the first mismatch: that is a new VIOLATION."""
+    as_code = as_code_for(traces, all_devs)
+    verdicts, models, props, results = pre if pre is not None else validate(module, traces, label, parallel)
     for r in results:
         chk.add_tlc(f"{fam} trace validation (as-code Dev={as_code})", r, note="one TLC state per recorded step")
     chk.impl_traces += len(traces)
@@ -144,7 +155,6 @@ def judge(chk, fam, module, traces, meta, all_devs, label, parallel):
              "failures_by_key": {}}
     for tid, (v, pos) in sorted(verdicts.items()):
         mism, mpos, mask = models[tid]
-        used = [d for i, d in enumerate(as_code) if isinstance(mask, int) and mask >> i & 1]
         origin = meta[tid].get("origin")
         if v == "ACCEPT":
             stats["accept"] += 1
@@ -154,19 +164,27 @@ def judge(chk, fam, module, traces, meta, all_devs, label, parallel):
             chk.note_drift(f"{fam} trace {tid} ({origin}): {v} at step {pos}")
             continue
         stats["prop"] += 1
-        clause = v[5:]
-        followed = mism == "none" or mpos > pos
-        if followed and used:
-            keys = list(used)
-        elif followed:
-            keys = [f"{fam}_{clause}_in_corrected_design"]
-        else:
-            keys = [f"{fam}_{clause}_after_" + mism.replace("MODEL:", "").replace(":", "_")]
-        for key in keys:
-            stats["failures_by_key"][key] = stats["failures_by_key"].get(key, 0) + 1
-            chk.violation(key, f"{fam}: contract clause '{clause}' false at step {pos} of a real execution ({origin}); "
-                               f"as-code model in sync: {followed}; deviations exercised: {used}",
-                          {"family": fam, "meta": meta[tid], "trace": by_id[tid]})
+        if mism != "none":
+            stats["drift"] += 1
+        found = props.get(tid)
+        if not found:       # single-clause trace specs (election, lock) print "PROP:<clause>" only
+            found = [(v[5:], pos, mism == "none" or mpos > pos, mask)]
+        for clause, at, followed, m in found:
+            used = [d for i, d in enumerate(as_code) if isinstance(m, int) and m >> i & 1]
+            if followed and used:
+                keys = list(used)
+            elif followed and as_code:
+                # reproduced step by step by the model of the pinned code, but no single step is attributable
+                keys = list(as_code)
+            elif followed:
+                keys = [f"{fam}_{clause}_in_corrected_design"]
+            else:
+                keys = [f"{fam}_{clause}_after_" + mism.replace("MODEL:", "").replace(":", "_")]
+            for key in keys:
+                stats["failures_by_key"][key] = stats["failures_by_key"].get(key, 0) + 1
+                chk.violation(key, f"{fam}: contract clause '{clause}' false at step {at} of a real execution "
+                                   f"({origin}); as-code model in sync: {followed}; deviations exercised: {used}",
+                              {"family": fam, "meta": meta[tid], "trace": by_id[tid]})
     return stats
 
 
@@ -204,8 +222,7 @@ def paxos_jobs(jobs, tier):
                                               ["PropStability"], workers=big))
     else:
         jobs.submit("paxos_clean", lambda: mc(P, "paxos_clean", paxos_consts(), PAXOS_INVS, ["PropStability"], workers=W))
-        jobs.submit("paxos_clean2", lambda: mc(P, "paxos_clean2", paxos_consts(quiet=True, maxb=3, learn=True,
-                                                                               proposers="{1}", once=False),
+        jobs.submit("paxos_clean2", lambda: mc(P, "paxos_clean2", paxos_consts(quiet=True, learn=True),
                                                PAXOS_INVS, ["PropStability"], workers=big))
     # learners + liveness (fault-free clause): single proposer, Decided broadcast on
     live = paxos_consts(proposers="{1}", maxb=1, maxp=1, learn=True)
@@ -229,7 +246,7 @@ def run_paxos(chk, jobs, tier, rng, parallel):
     def add(rec, info, mode="safety", pval=0):
         T.add(lambda tid: rec.trace(tid, [], mode=mode, pval=pval), info, rec.error)
 
-    n_direct, n_sim, n_prog = (150, 20, 12) if tier == "quick" else (4000, 500, 300)
+    n_direct, n_sim, n_prog = (150, 20, 12) if tier == "quick" else (2500, 300, 200)
     for k in range(n_direct):
         c, info = P.random_direct(rng, strat=P.STRATS[k % len(P.STRATS)])
         info["origin"] = "random direct drive"
@@ -250,13 +267,15 @@ def run_paxos(chk, jobs, tier, rng, parallel):
         info["origin"] = "real Simulation, scripted latencies"
         add(rec, info)
     gen_s = time.time() - t0
+    yield "generated"
 
     res = jobs.result("paxos_clean")
-    chk.add_tlc("Paxos Dev={} (N=3, two competing proposers, retries, ballots<=2)", res)
+    chk.add_tlc("Paxos Dev={} (N=3, two competing proposers, retries, ballots<=2" +
+                (", propose() only while no Prepare is in flight)" if tier == "quick" else ", propose() at any time)"), res)
     chk.require(res.ok, f"Paxos.tla with Dev={{}} violates {res.violated}: the corrected design is wrong")
     if tier != "quick":
         res = jobs.result("paxos_clean2")
-        chk.add_tlc("Paxos Dev={} (one proposer proposing twice, learners, ballots<=3)", res)
+        chk.add_tlc("Paxos Dev={} (two proposers, learners = Decided broadcast delivered, ballots<=2)", res)
         chk.require(res.ok, f"Paxos.tla with Dev={{}} violates {res.violated}")
     res = jobs.result("paxos_live_clean")
     chk.add_tlc("Paxos Dev={} FairSpec: single proposer, learners, Progress", res)
@@ -287,7 +306,8 @@ def run_paxos(chk, jobs, tier, rng, parallel):
         chk.replays += 1
         add(c.rec, {"origin": f"TLC counterexample for Dev={{{dev}}} ({res.violated})", "skipped": skipped})
 
-    stats = judge(chk, "paxos", SPEC / "PaxosTrace.tla", T.traces, T.meta, PAXOS_DEVS, "C12_paxos_trace", parallel)
+    pre = yield [(SPEC / "PaxosTrace.tla", T.traces, PAXOS_DEVS, "C12_paxos_trace", parallel)]
+    stats = judge(chk, "paxos", SPEC / "PaxosTrace.tla", T.traces, T.meta, PAXOS_DEVS, "C12_paxos_trace", parallel, pre[0])
     stats["generation_s"] = round(gen_s, 1)
     chk.extra["paxos"] = stats
     t = T.traces[-1]
@@ -364,7 +384,7 @@ def run_multi(chk, jobs, tier, rng, parallel):
     def add(rec, info, mode="safety", pcmds=()):
         T.add(lambda tid: rec.trace(tid, info["cfg"], mode=mode, pcmds=pcmds), info, rec.error)
 
-    n_direct, n_sim, n_prog = (120, 12, 16) if tier == "quick" else (3000, 300, 400)
+    n_direct, n_sim, n_prog = (120, 12, 16) if tier == "quick" else (2000, 200, 300)
     for k in range(n_direct):
         cfg = M.random_cfg(rng, flex=bool(k % 2))
         c, info = M.random_direct(rng, cfg=cfg, strat=M.STRATS[k % len(M.STRATS)])
@@ -385,6 +405,7 @@ def run_multi(chk, jobs, tier, rng, parallel):
         info["origin"] = "real Simulation, scripted latencies"
         add(rec, info)
     gen_s = time.time() - t0
+    yield "generated"
 
     clean = ["multi_clean_takeover", "multi_clean_accept"]
     if tier != "quick":
@@ -431,7 +452,8 @@ def run_multi(chk, jobs, tier, rng, parallel):
     dot.unlink(missing_ok=True)
     chk.extra["multi_tour"] = {"states": len(g.nodes), "edges": g.n_edges(), "paths": n_paths}
 
-    stats = judge(chk, "multi", SPEC / "MultiTrace.tla", T.traces, T.meta, MULTI_DEVS, "C12_multi_trace", parallel)
+    pre = yield [(SPEC / "MultiTrace.tla", T.traces, MULTI_DEVS, "C12_multi_trace", parallel)]
+    stats = judge(chk, "multi", SPEC / "MultiTrace.tla", T.traces, T.meta, MULTI_DEVS, "C12_multi_trace", parallel, pre[0])
     stats["generation_s"] = round(gen_s, 1)
     chk.extra["multi"] = stats
     t = T.traces[0]
@@ -459,7 +481,7 @@ def misc_jobs(jobs, tier):
 def run_misc(chk, jobs, tier, rng, parallel):
     from . import c12_misc as X
     E, L = Traces(chk, "elect"), Traces(chk, "lock")
-    n_e, n_es, n_l, n_ls = (45, 9, 60, 12) if tier == "quick" else (1500, 240, 3000, 400)
+    n_e, n_es, n_l, n_ls = (45, 9, 60, 12) if tier == "quick" else (1000, 150, 2000, 300)
     for k in range(n_e):
         rec, info = X.election_direct(rng, strategy=("bully", "ring", "random")[k % 3])
         info["origin"] = "random direct drive"
@@ -476,6 +498,7 @@ def run_misc(chk, jobs, tier, rng, parallel):
         rec, info = X.lock_sim(rng)
         info["origin"] = "real Simulation (lease expiry events scheduled by the engine)"
         L.add(rec.trace, info, rec.error)
+    yield "generated"
     res = jobs.result("elect_clean")
     chk.add_tlc("Election (bully, ring, randomized; N=3)", res)
     chk.require(res.ok, f"Election.tla violates {res.violated}")
@@ -490,8 +513,10 @@ def run_misc(chk, jobs, tier, rng, parallel):
     chk.add_tlc("Lock Dev={waiter_inherits_token}", res, count=False, note="sensitivity run, must violate")
     chk.require(res.violated == "InvTokensIncrease", f"waiter_inherits_token not caught (got {res.violated})")
     chk.sensitivity["waiter_inherits_token(plausible mutation)"] = res.violated
-    chk.extra["elect"] = judge(chk, "elect", SPEC / "ElectionTrace.tla", E.traces, E.meta, [], "C12_elect_trace", parallel)
-    chk.extra["lock"] = judge(chk, "lock", SPEC / "LockTrace.tla", L.traces, L.meta, [], "C12_lock_trace", parallel)
+    pre = yield [(SPEC / "ElectionTrace.tla", E.traces, [], "C12_elect_trace", parallel),
+                 (SPEC / "LockTrace.tla", L.traces, [], "C12_lock_trace", parallel)]
+    chk.extra["elect"] = judge(chk, "elect", SPEC / "ElectionTrace.tla", E.traces, E.meta, [], "C12_elect_trace", parallel, pre[0])
+    chk.extra["lock"] = judge(chk, "lock", SPEC / "LockTrace.tla", L.traces, L.meta, [], "C12_lock_trace", parallel, pre[1])
 
 
 # ---------------------------------------------------------------------------
@@ -516,12 +541,31 @@ def run(tier, seed, replay=None):
             multi_jobs(jobs, tier)
         if "misc" in only:
             misc_jobs(jobs, tier)
+        # stage 1 (sequential, deterministic): seeded real executions of every family while TLC is busy
+        stages = []
         if "paxos" in only:
-            run_paxos(chk, jobs, tier, random.Random(rng.random()), parallel=4)
+            stages.append(run_paxos(chk, jobs, tier, random.Random(rng.random()), parallel=3))
         if "multi" in only:
-            run_multi(chk, jobs, tier, random.Random(rng.random()), parallel=4)
+            stages.append(run_multi(chk, jobs, tier, random.Random(rng.random()), parallel=3))
         if "misc" in only:
-            run_misc(chk, jobs, tier, random.Random(rng.random()), parallel=2)
+            stages.append(run_misc(chk, jobs, tier, random.Random(rng.random()), parallel=1))
+        for g in stages:
+            next(g)
+        # stage 2: model-checking results, replays of TLC behaviours; each family then asks for validation
+        requests = [next(g) for g in stages]
+        for reqs in requests:
+            for (_, traces, devs, _, _) in reqs:
+                as_code_for(traces, devs)
+        # stage 3: all trace validations concurrently (one TLC process per chunk)
+        with ThreadPoolExecutor(max_workers=8) as ex:
+            futs = [[ex.submit(validate, m, tr, lab, par) for (m, tr, _, lab, par) in reqs] for reqs in requests]
+            pres = [[f.result() for f in fs] for fs in futs]
+        # stage 4: verdicts
+        for g, pre in zip(stages, pres):
+            try:
+                g.send(pre)
+            except StopIteration:
+                pass
     finally:
         jobs.close()
         random.setstate(state)
